@@ -18,7 +18,7 @@ pub struct Reader<R> {
 
 impl<R> Reader<R>
 where
-    R: io::Read,
+    R: io::BufRead,
 {
     pub fn new(inner: R) -> io::Result<Self> {
         let mut inner = bcf::Reader::from(inner);
@@ -45,8 +45,19 @@ where
     }
 
     fn read_genotypes(&mut self) -> ReadStatus<Vec<Option<VcfGenotype>>> {
+        // The input is complete only if it ends between two records. The record reader itself
+        // reports an input that ends (or fails) inside the length fields of a record as done
+        match self.inner.get_mut().fill_buf() {
+            Ok(buf) if buf.is_empty() => return ReadStatus::Done,
+            Ok(_) => (),
+            Err(e) => return ReadStatus::Error(e),
+        }
+
         match self.inner.read_lazy_record(&mut self.buf) {
-            Ok(0) => ReadStatus::Done,
+            Ok(0) => ReadStatus::Error(io::Error::new(
+                io::ErrorKind::UnexpectedEof,
+                "input ends inside a record",
+            )),
             Ok(_) => {
                 let result = self
                     .buf
@@ -70,7 +81,7 @@ where
 
 impl<R> super::Reader for Reader<R>
 where
-    R: io::Read,
+    R: io::BufRead,
 {
     fn current_contig(&self) -> &str {
         self.string_maps
